@@ -20,6 +20,14 @@ def formats_doc():
     for i in range(len(fs)):
         j = (i + 1) % len(fs)
         if i != j: defs["Mix%d" % i] = {"oneOf": [{"type": "string", "format": fs[i]}, {"type": "string", "format": fs[j]}]}
+    # unions in which an EARLIER alternative accepts what a later, more specific one accepts too (a plain string definition, then a
+    # format), and the other way round: parsing must build the variant deserialisation builds
+    defs["Plain"] = {"type": "string"}
+    defs["Short"] = {"type": "string", "maxLength": 12}
+    for i, f in enumerate(fs):
+        defs["Pre%d" % i] = {"oneOf": [{"$ref": "#/definitions/Plain"}, {"type": "string", "format": f}]}
+        defs["Post%d" % i] = {"oneOf": [{"type": "string", "format": f}, {"$ref": "#/definitions/Plain"}]}
+        defs["Mid%d" % i] = {"oneOf": [{"$ref": "#/definitions/Short"}, {"type": "string", "format": f}, {"$ref": "#/definitions/Plain"}]}
     defs["Opaque"] = {"type": "string", "format": "no-such-format"}
     return {"title": "R", "type": "object", "properties": {"a": {"$ref": "#/definitions/Fmt0"}} if fs else {}, "definitions": defs}
 
@@ -55,7 +63,7 @@ def cases(ctx):
 def run(ctx):
     st = vlib.proof_stage(ctx, "C11", PROOF_TARGETS, PROOF_FILES, slices=["ir"])
     cs = cases(ctx)
-    b = Batch(ctx, assertions=False, ops=("de", "fromstr", "tryfrom_str", "tryfrom_string", "tryfrom_refstring", "display"), ops_for="named")
+    b = Batch(ctx, assertions=False, ops=("de", "fromstr", "tryfrom_str", "tryfrom_string", "tryfrom_refstring", "display", "de_dbg", "fromstr_dbg"), ops_for="named")
     bc = []
     for tag, rq in cs:
         c = b.add_case(rq["calls"], rq["settings"], tag=tag); c.settings = rq["settings"]; c.request = rq; bc.append(c)
@@ -70,7 +78,7 @@ def run(ctx):
         c.ops_types = [x[0] for x in sw]
         targets.append((c, sw))
     b.build()
-    reqs = []; meta = []
+    reqs = []; meta = []; dbg_reqs = []
     for c, sw in targets:
         if not c.compiled: continue
         for name, tid, kind in sw[: (50 if ctx.tier == "thorough" or c.tag == "formats" else 12)]:
@@ -78,6 +86,9 @@ def run(ctx):
             for s in probes[: (80 if ctx.tier == "thorough" or "native" in kind else 40)]:
                 for op in ("fromstr", "de", "tryfrom_str", "tryfrom_string", "tryfrom_refstring", "display"):
                     reqs.append((c, name, op, J(s))); meta.append((kind, s))
+                if "untagged" in kind:
+                    # which VARIANT was built (Debug text of the value): the serialisations of two variants can coincide
+                    dbg_reqs.append((c, name, "fromstr_dbg", J(s))); dbg_reqs.append((c, name, "de_dbg", J(s)))
     ctx.log("cases=%d compiled=%d string-wire types=%d requests=%d" % (len(bc), sum(1 for c in bc if c.compiled),
             sum(len(sw) for _, sw in targets), len(reqs)))
     r = m3.compare(b, [c for c in bc if c.dump], reqs) if st["driver_ok"] else {"real": b.run(reqs), "model": None, "disagreements": [], "skipped_model": 0, "skipped_real": 0, "real_status": {}}
@@ -99,6 +110,13 @@ def run(ctx):
         d = m3.norm_real("display", a["display"])
         if d[0] == "ok" and de_[0] == "ok" and d[1] != de_[1]:
             fails.append((cid, ty, payload, "display!=serialized", a["display"], a["de"]))
+    # parsing builds the SAME VALUE deserialisation builds (the Debug text of the two values; the serialisations of two variants
+    # of an untagged enum of strings coincide)
+    dbg = b.run(dbg_reqs) if dbg_reqs else []
+    for i_ in range(0, len(dbg), 2):
+        (c_, ty_, _, pl_), fsd, ded = dbg_reqs[i_], dbg[i_], dbg[i_ + 1]
+        if fsd.startswith("ok ") and ded.startswith("ok ") and fsd != ded:
+            fails.append((id(c_), ty_, pl_, "fromstr value != deserialized value", fsd, ded))
     cmap = {id(c): c for c in bc}
     findings = vlib.load_findings("C11"); known_hit = {}
     def attributed(cid, ty, what):
